@@ -167,7 +167,7 @@ theorem table_json_columns_frame (t : Table) (hwf : t.wf = true) (hv : t.jsonVer
   unfold Table.jsonColumns jsonToPandas
   simp only
   have hno : ∀ k : Str, (∀ c ∈ t.cols, c.name ≠ k) →
-      assocGet k (t.cols.map fun c => (c.name, JVal.obj (((List.range c.cells.length).map natText).zip c.jsonCells))) = none := by
+      assocGet k (t.cols.map fun c => (c.name, JVal.obj ((rowLabels c.cells.length).zip c.jsonCells))) = none := by
     intro k hk
     apply assocGet_none
     intro kv hkv
@@ -180,13 +180,13 @@ theorem table_json_columns_frame (t : Table) (hwf : t.wf = true) (hv : t.jsonVer
   apply mapM_some
   intro c _
   simp only [Function.comp]
-  have : (((List.range c.cells.length).map natText).zip c.jsonCells).mapM (fun kc : Str × JVal => JVal.cell kc.2)
+  have : ((rowLabels c.cells.length).zip c.jsonCells).mapM (fun kc : Str × JVal => JVal.cell kc.2)
       = some (back c) := by
     rw [mapM_some _ _ (fun kc => (kc.2.cell).getD .null)]
     · congr 1
-      have hz : (((List.range c.cells.length).map natText).zip c.jsonCells).map (fun kc => (kc.2.cell).getD .null)
+      have hz : ((rowLabels c.cells.length).zip c.jsonCells).map (fun kc => (kc.2.cell).getD .null)
           = c.jsonCells.map (fun j => (j.cell).getD .null) := by
-        have hl : c.jsonCells.length ≤ ((List.range c.cells.length).map natText).length := by simp [Column.jsonCells]
+        have hl : c.jsonCells.length ≤ (rowLabels c.cells.length).length := by simp [Column.jsonCells, rowLabels]
         have hfun : (fun kc : Str × JVal => (kc.2.cell).getD Val.null) = (fun j : JVal => (j.cell).getD Val.null) ∘ Prod.snd := rfl
         rw [hfun, ← List.map_map, List.map_snd_zip hl]
       rw [hz, jsonCells_back]
